@@ -2,6 +2,7 @@
 
 M: TLC model-checks spec/Tunnel.tla (Integrity, NoForeignUnit) at small constants.
 G: real iodine + real iodined through a relay, configurations x packets x fault schedules.
+B: every iteration of the real server's loop in those runs must be a step of Tunnel.tla (TraceTunnelSrv, drift only).
 T: every tun write of every run is judged by TLC against spec/MonIntegrity.tla.
 """
 import json
@@ -70,8 +71,9 @@ def specs(tier, seed):
 
 
 def _run(spec):
-    r = runs.execute(spec, want=("C01",))
+    r = runs.execute(spec, want=("C01", "TSRV"))
     return {"label": spec.get("label"), "spec": spec, "events": r["mon"].get("C01", []), "stats": r["stats"],
+            "TSRV": r["mon"].get("TSRV"),
             "fabricated": r.get("fabricated"), "san": bool(r["san"]), "hang": r["hang"], "error": r["error"]}
 
 
@@ -82,6 +84,7 @@ def main(tier):
     sp = specs(tier, seed)
     results = vcheck.parallel(_run, sp)
     common.judge(chk, results, "TraceMonIntegrity", "TraceMonIntegrity.cfg", sig_prefix="integrity")
+    common.bind_tunnel(chk, results)
     nontriv = set()
     for r in results:
         st = r["stats"]
